@@ -11,6 +11,7 @@ var commonComponents = map[string]string{
 }
 
 func initProps() {
+	initC11()
 	propsCfg["C17"] = &propCfg{
 		race:        true,
 		level:       "exploration",
@@ -35,6 +36,30 @@ func initProps() {
 				}
 				return 16
 			}},
+		},
+	}
+}
+
+func initC11() {
+	propsCfg["C11"] = &propCfg{
+		race:        false,
+		level:       "fault_enumeration",
+		quickRuns:   24000,
+		thorRuns:    1500000,
+		quickBudget: 150,
+		thorBudget:  1500,
+		components:  withExtra(commonComponents, "scripted NBT peer", "harness code with an independent RFC 1002 section 4.3.1 framer/deframer (never the library's own)"),
+		assumptions: []string{
+			"the simulated stream follows the documented net.Conn contract (short reads, io.EOF after FIN once drained, reset error after RST, ErrClosed on local close, partial write + error); kernel specifics are not modelled",
+			"the cut enumeration is exhaustive only for the 40 listed small frame sequences (wire size <= 96 bytes): every byte offset x {FIN, RST, local close} x {whole, byte-by-byte, seeded} segmentation x {peer->SUT, SUT->SUT}; large frames are sampled",
+			"no race-detector build for C11 (its tasks share nothing but the transport under test)",
+		},
+		rule: "each run: one real NBTTransport (via smb_v10/transport.NewTransport) or a pair of them over a simulated TCP stream; 1-6 frames with lengths biased to 0,1..5,0xFFFF,0x10000,0x10001,0x1FFFE,0x1FFFF,0x20000.. and random up to 200000; " +
+			"per-Write segmentation, per-segment delay, read coalescing, window 7..1MiB, cut (FIN/RST/local close) at a byte offset biased to header bytes and frame boundaries, all from the choice stream; " +
+			"oracles: wire bytes vs an independent RFC 1002 framer, refusal of >0x1FFFF, i-th successful Receive == i-th payload, no success beyond the completely delivered frames, error after the cut and forever after, no blocked Receive once everything is delivered. " +
+			"non-trivial = every run (each moves at least one frame or exercises a cut); distinct = distinct interleaving signature",
+		scenarios: []fixedScenario{
+			{name: "cutenum", enum: true, runs: func(tier string) int64 { return 0 }},
 		},
 	}
 }
